@@ -110,8 +110,9 @@ func canMatchEmpty(n node, visiting map[node]bool) bool {
 		return true
 	case *group:
 		if n.mode == groupMatchNonEmpty {
-			// A non-empty group needs a value; only the empty literal yields one without consuming input.
-			return canMatchEmpty(n.expr, visiting) && containsEmptyLiteral(n.expr, map[node]bool{})
+			// A non-empty group needs a value, not a token: it matches without consuming input if its
+			// expression can and hands back a value when it does.
+			return canMatchEmpty(n.expr, visiting) && yieldsValueOnEmpty(n.expr, visiting)
 		}
 		return n.mode == groupMatchZeroOrOne || n.mode == groupMatchZeroOrMore || canMatchEmpty(n.expr, visiting)
 	case *literal:
@@ -125,19 +126,51 @@ func canMatchEmpty(n node, visiting map[node]bool) bool {
 	return false
 }
 
-// containsEmptyLiteral reports whether an unconstrained empty literal occurs below "n".
-func containsEmptyLiteral(n node, seen map[node]bool) (found bool) {
-	_ = visit(n, func(n node, next func() error) error {
-		if l, ok := n.(*literal); ok && l.s == "" && l.t == lexer.EOF {
-			found = true
+// yieldsValueOnEmpty reports whether "n" can match without consuming input and return a value when it does:
+// the unconstrained empty literal does, and so does a capture around anything that can match nothing (the
+// capture returns its struct whenever its operand matched, even with no tokens). An optional capture that
+// did not match yields nothing, and a repetition of an expression that matches nothing never completes.
+func yieldsValueOnEmpty(n node, visiting map[node]bool) bool {
+	switch n := n.(type) {
+	case *literal:
+		return n.s == "" && n.t == lexer.EOF
+	case *capture:
+		return canMatchEmpty(n.node, visiting)
+	case *strct:
+		return canMatchEmpty(n, visiting)
+	case *union:
+		for _, member := range n.disjunction.nodes {
+			if canMatchEmpty(member, visiting) {
+				return true
+			}
 		}
-		if found || seen[n] {
-			return nil
+		return false
+	case *sequence:
+		yields := false
+		for s := n; s != nil; s = s.next {
+			if !canMatchEmpty(s.node, visiting) {
+				return false
+			}
+			yields = yields || yieldsValueOnEmpty(s.node, visiting)
 		}
-		seen[n] = true
-		return next()
-	})
-	return found
+		return yields
+	case *disjunction:
+		for _, child := range n.nodes {
+			if canMatchEmpty(child, visiting) && yieldsValueOnEmpty(child, visiting) {
+				return true
+			}
+		}
+		return false
+	case *group:
+		switch n.mode {
+		case groupMatchOnce, groupMatchZeroOrOne:
+			return yieldsValueOnEmpty(n.expr, visiting)
+		case groupMatchNonEmpty:
+			return canMatchEmpty(n.expr, visiting) && yieldsValueOnEmpty(n.expr, visiting)
+		}
+		return false
+	}
+	return false
 }
 
 func indent(s string) string {
